@@ -5,7 +5,6 @@
 
     known findings (the unchanged code departs from MongoDB's definition; witnesses in
     known_findings.json, replayed on every run)
-      countempty     `$count` over no documents returns `{name: 0}`; MongoDB returns no document
       groupnullempty `$group` with a constant `_id` over no documents returns one group
       groupfalsyid   `$group` with a falsy constant `_id` (0, "", false) reports `_id: null`
       groupboolnum   group keys mixing booleans and numbers (`true == 1` in Python): merged when
@@ -62,7 +61,7 @@ def stageReasons (op : String) (opts : Val) (docs : List Val) : List String :=
     | _ => ["nospec"]
   else if op = "$skip" then []
   else if op = "$limit" then []
-  else if op = "$count" then (if docs.isEmpty then ["countempty"] else [])
+  else if op = "$count" then []
   else if op = "$project" then
     match opts with
     | .doc options =>
